@@ -164,8 +164,12 @@ func (r *Run) fireTimers() {
 			if t.period == nil {
 				t.fired = true
 			} else {
-				// next tick strictly after the current instant (ticks are dropped for slow receivers)
-				t.due = tBVBin("bvadd", r.nowT, t.period)
+				// next tick one period after the previous one; if that is already over (slow
+				// receiver, ticks are dropped) restart from the current instant
+				t.due = tBVBin("bvadd", t.due, t.period)
+				if r.branch(tBVCmp("bvsle", t.due, r.nowT)) {
+					t.due = tBVBin("bvadd", r.nowT, t.period)
+				}
 			}
 			if t.fn != nil {
 				fn := t.fn
